@@ -80,6 +80,8 @@ def impl_call(case):
             e[0] = 2 * w[0] - e[1]
             e[-1] = 2 * w[-1] - e[-2]
             extra['unbinned_sum'] = float(np.sum(y * np.abs(np.diff(e))))
+            extra['native_w'] = w
+            extra['native_counts'] = y * np.abs(np.diff(e))
         extra['effstim_count'] = guarded(lambda: obs.effstim('count', area=area_arg(qu)).value)
         extra['effstim_obmag'] = guarded(lambda: obs.effstim('obmag', area=area_arg(qu)).value)
         extra['unbinned'] = guarded(lambda: obs.countrate(area_arg(qu), binned=False).value)
@@ -147,6 +149,32 @@ def oracle(rep, case, out):
                 rep.oracle_fail(sig + ':not_area_times_sum', 'countrate=%r, area x sum(flux x width)=%r' % (r['ok'], total_ref), case, r)
             continue
         if not qu['binned']:
+            # restricted to a range (native samples): exactly the samples inside the range, each with the count it has
+            # in the whole observation (its own bin width on the native set)
+            if x.get('native_w') is None:
+                continue
+            nw, nc = np.array(x['native_w']), np.array(x['native_counts'])
+            w1, w2 = sorted(O.fl(v) for v in qu['waverange'])
+            lo, hi = nw.min(), nw.max()
+            if w2 < lo or hi < w1:
+                if r.get('err') != 'DisjointError':
+                    rep.oracle_fail(sig + ':range_disjoint:%s' % r.get('err', 'returned'), 'disjoint range must raise DisjointError', case, r)
+                continue
+            if not (w1 >= lo and w2 <= hi) and not qu['force']:
+                if r.get('err') != 'PartialOverlap':
+                    rep.oracle_fail(sig + ':range_partial:%s' % r.get('err', 'returned'), 'a range sticking out must raise PartialOverlap', case, r)
+                continue
+            inside = (nw >= w1) & (nw <= w2)
+            want = area * float(np.sum(nc[inside]))
+            if 'err' in r:
+                if r['err'] == 'SynphotError' and (want <= 0 or not bool(np.all(nc >= 0))):
+                    continue
+                rep.oracle_fail(sig + ':range:%s' % r['err'], 'range inside the native samples raised %s' % r['err'], case, r)
+            elif abs(r['ok'] - want) > 1e-9 * max(abs(want), area * float(np.sum(np.abs(nc[inside])))):
+                rep.oracle_fail(sig + ':range_not_the_samples_inside', 'range count %r, area x sum over the native samples inside the range %r'
+                                % (r['ok'], want), case, r)
+            elif bool(np.all(nc >= 0)) and r['ok'] > area * x['unbinned_sum'] * (1 + 1e-9):
+                rep.oracle_fail(sig + ':range_exceeds_total', 'restricted count rate exceeds the unrestricted one', case, r)
             continue
         # restricted to a range (binned): a contiguous run of whole bins covering the range
         w1, w2 = sorted(O.fl(v) for v in qu['waverange'])
